@@ -48,12 +48,12 @@ extern "C" int vf_run_case(const uint8_t * data, size_t size)
    vf::BS bs(data, size);
    const int NT = 1+bs.u8()%3; const uint32 maxPool = bs.u8()%5;
    std::vector<std::vector<Op> > scripts(NT);
-   for (int t=0; t<NT; t++) {const uint32 n = 2+bs.u8()%7; for (uint32 i=0; i<n; i++) {Op o; o.op = bs.u8()%11; o.a = bs.u8()%3; o.b = bs.u8()%3; scripts[t].push_back(o);}}
+   for (int t=0; t<NT; t++) {const uint32 n = 2+bs.u8()%7; for (uint32 i=0; i<n; i++) {Op o; o.op = bs.u8()%18; if (o.op >= 15) {static const uint8_t again[3] = {12, 14, 11}; o.op = again[o.op-15];} o.a = bs.u8()%3; o.b = bs.u8()%3; scripts[t].push_back(o);}}
    char desc[120]; snprintf(desc, sizeof(desc), "%d thread(s), ObjectPool<Obj,128> maxPoolSize=%u", NT, maxPool);
    if (vf::Verbose()) fprintf(stderr, "config: %s\n", desc);
 
    g_ctor = g_dtor = 0; g_doubleReleases = 0;
-   uint32 genCounter = 1; uint32 crossThreadFinalRelease = 0, obtained = 0, heapObjs = 0; uint64_t switches = 0, preempt = 0; std::vector<uint8_t> trace;
+   uint32 genCounter = 1; uint32 crossThreadFinalRelease = 0, obtained = 0, heapObjs = 0, nonCountingPromoted = 0; uint64_t switches = 0, preempt = 0; std::vector<uint8_t> trace;
    {
       vsched::ByteSource src(bs, 0x80); vsched::Scheduler sc(src); sc.SetContext(desc);
       Pool pool(maxPool);
@@ -72,15 +72,22 @@ extern "C" int vf_run_case(const uint8_t * data, size_t size)
          }
       }
       for (int t=0; t<NT; t++) sc.Spawn([&, t]{
-         ObjRef mine[3]; uint32 expect[3] = {0, 0, 0};
+         ObjRef mine[3]; uint32 expect[3] = {0, 0, 0}; bool counting[3] = {true, true, true};     // counting[i] == false: mine[i] is a non-counting reference (SetRef(p, false)), kept only while a counting reference of this thread holds the same object
          for (int j=0; j<2; j++) {mine[j] = init[t][j]; init[t][j].Reset(); expect[j] = mine[j]() ? mine[j]()->gen : 0;}
+         if ((mine[0]())&&(scripts[t][0].b&1)) {mine[2].SetRef(mine[0](), false); expect[2] = expect[0]; counting[2] = false;}     // some threads start out with a non-counting reference next to a counting one
          const std::vector<Op> & ops = scripts[t];
+         // turning this thread's last counting reference to an object into a non-counting reference of the same object drops the count without releasing the object
+         // (documented: a non-counting Ref never deletes) -- a leak of the script's own making, so such steps are skipped
+         auto wouldOrphan = [&](int dst, const Obj * srcPtr, bool srcCounting) -> bool {
+            if ((srcPtr == NULL)||(srcCounting)||(mine[dst]() != srcPtr)||(counting[dst] == false)) return false;
+            for (int j=0; j<3; j++) if ((j != dst)&&(counting[j])&&(mine[j]() == srcPtr)) return false;
+            return true;};
          for (size_t k=0; k<ops.size(); k++)
          {
             const Op & o = ops[k]; const uint8_t a = o.a, b = o.b;
             switch(o.op)
             {
-               case 0: mine[a] = mine[b]; expect[a] = expect[b]; break;                                        // copy-assign
+               case 0: if (wouldOrphan(a, mine[b](), counting[b])) break; mine[a] = mine[b]; expect[a] = expect[b]; counting[a] = counting[b]; break;                                        // copy-assign
                case 1: mine[a].Reset(); expect[a] = 0; break;
                case 2: case 3:
                {
@@ -90,17 +97,34 @@ extern "C" int vf_run_case(const uint8_t * data, size_t size)
                   if (p->inUse) vf::Fail("the pool handed out an object that is in use (%s)", desc);
                   if (p->GetRefCount() != 0) vf::Fail("an obtained object has a reference count of %u", p->GetRefCount());
                   p->inUse = true; p->gen = genCounter++; p->payload = 0x1000+(uint32)t; if (p->gen < madeBy.size()) madeBy[p->gen] = t;
-                  expect[a] = p->gen; mine[a].SetRef(p); obtained++; if (o.op == 3) heapObjs++;
+                  expect[a] = p->gen; mine[a].SetRef(p); counting[a] = true; obtained++; if (o.op == 3) heapObjs++;
                }
                break;
-               case 4: mine[a].SwapContents(mine[b]); {const uint32 tmp = expect[a]; expect[a] = expect[b]; expect[b] = tmp;} break;
-               case 5: {DECLARE_MUTEXGUARD(boxLock); box[b%2] = mine[a]; boxOwnerThread[b%2] = t;} break;                                   // publish
-               case 6: {DECLARE_MUTEXGUARD(boxLock); mine[a] = box[b%2]; expect[a] = mine[a]() ? mine[a]()->gen : 0;} break;                  // take a copy
-               case 7: {ObjRef tmp = std::move(mine[a]); mine[a] = std::move(mine[b]); mine[b] = std::move(tmp); const uint32 e = expect[a]; expect[a] = expect[b]; expect[b] = e;} break;
-               case 8: {ConstObjRef c = mine[a]; ObjRef back = CastAwayConstFromRef(c); if (back() != mine[a]()) vf::Fail("const-cast round trip changed the pointer"); mine[b] = back; expect[b] = expect[a];} break;
+               case 4: mine[a].SwapContents(mine[b]); {const uint32 tmp = expect[a]; expect[a] = expect[b]; expect[b] = tmp; const bool tc = counting[a]; counting[a] = counting[b]; counting[b] = tc;} break;
+               case 5: if ((counting[a])||(mine[a]() == NULL)) {DECLARE_MUTEXGUARD(boxLock); box[b%2] = mine[a]; boxOwnerThread[b%2] = t;} break;   // (a non-counting reference is never handed to another thread)                                   // publish
+               case 6: {DECLARE_MUTEXGUARD(boxLock); mine[a] = box[b%2]; expect[a] = mine[a]() ? mine[a]()->gen : 0; counting[a] = true;} break;                  // take a copy
+               case 7: {ObjRef tmp = std::move(mine[a]); mine[a] = std::move(mine[b]); mine[b] = std::move(tmp); const uint32 e = expect[a]; expect[a] = expect[b]; expect[b] = e; const bool tc = counting[a]; counting[a] = counting[b]; counting[b] = tc;} break;
+               case 8: {ConstObjRef c = mine[a]; ObjRef back = CastAwayConstFromRef(c); if (back() != mine[a]()) vf::Fail("const-cast round trip changed the pointer"); if (wouldOrphan(b, back(), counting[a])) break; mine[b] = back; expect[b] = expect[a]; counting[b] = counting[a];} break;
                case 9: {ObjRef copy(mine[a]); ObjRef copy2 = copy; (void) copy2; sc.YieldNow();} break;                                     // temporaries come and go
                case 10: {DECLARE_MUTEXGUARD(boxLock); box[b%2].Reset();} break;
+               case 11: if (wouldOrphan(a, mine[b](), false)) break; mine[a].SetRef(mine[b](), false); expect[a] = expect[b]; counting[a] = false; break;                          // a non-counting reference to the same object
+               case 12:                                                                                                              // a counting reference to the same object is assigned to the non-counting one
+               {
+                  int j = -1; for (int i=0; i<3; i++) if ((i != a)&&(mine[i]())&&(counting[i])&&(mine[i]() == mine[a]())) j = i;
+                  if ((mine[a]())&&(counting[a] == false)&&(j >= 0)) {mine[a] = mine[j]; counting[a] = true; nonCountingPromoted++;}
+               }
+               break;
+               case 13:                                                                                                              // stop counting in place (another counting reference of this thread keeps the object)
+               {
+                  int j = -1; for (int i=0; i<3; i++) if ((i != a)&&(mine[i]())&&(counting[i])&&(mine[i]() == mine[a]())) j = i;
+                  if ((mine[a]())&&(counting[a])&&(j >= 0)) {mine[a].SetRef(mine[a](), false); counting[a] = false;}
+               }
+               break;
+               case 14: if ((mine[a]())&&(counting[a] == false)) {mine[a].SetRef(mine[a](), true); counting[a] = true; nonCountingPromoted++;} break;    // start counting in place
             }
+            // a non-counting reference may only be kept while a counting one of this thread holds the object
+            for (int i=0; i<3; i++) if ((mine[i]())&&(counting[i] == false)) {bool kept = false; for (int j=0; j<3; j++) if ((j != i)&&(counting[j])&&(mine[j]() == mine[i]())) kept = true; if (kept == false) {mine[i].Reset(); expect[i] = 0; counting[i] = true;}}
+            for (int i=0; i<3; i++) if ((mine[i]())&&(mine[i].IsRefCounting() != counting[i])) vf::Fail("a Ref reports IsRefCounting()=%d where the script made it %s (%s)", (int)mine[i].IsRefCounting(), counting[i] ? "counting" : "non-counting", desc);
             for (int i=0; i<3; i++)
             {
                const Obj * p = mine[i]();
@@ -111,6 +135,10 @@ extern "C" int vf_run_case(const uint8_t * data, size_t size)
                   if (p->gen != expect[i]) vf::Fail("a referenced object changed identity (stamp %u, expected %u): it was released while a reference still existed (%s)", p->gen, expect[i], desc);
                   if (p->inUse == false) vf::Fail("a referenced object is marked free (%s)", desc);
                   if (p->GetRefCount() == 0) vf::Fail("a referenced object has reference count 0 (%s)", desc);
+                  // every counting reference holds one count: this thread's own counting references are a lower bound at any moment, and the exact count in a single-threaded history
+                  uint32 myCounts = 0; for (int j=0; j<3; j++) if ((mine[j]() == p)&&(counting[j])) myCounts++;
+                  if (p->GetRefCount() < myCounts) vf::Fail("an object has reference count %u but this thread alone holds %u counting references to it (%s)", p->GetRefCount(), myCounts, desc);
+                  if (NT == 1) {uint32 all = myCounts; for (int j=0; j<2; j++) if (box[j]() == p) all++; if (p->GetRefCount() != all) vf::Fail("single-threaded history: an object has reference count %u, %u counting references to it exist (%s)", p->GetRefCount(), all, desc);}
                }
             }
          }
@@ -128,8 +156,8 @@ extern "C" int vf_run_case(const uint8_t * data, size_t size)
 
    vf::Count("context_switches", switches); vf::Count("preemptions", preempt); vf::Count("objects_obtained", obtained); vf::Count("heap_objects", heapObjs);
    vf::Count((NT == 1) ? "case_single_threaded_history" : "case_multi_threaded");
-   if (crossThreadFinalRelease) vf::Count("case_final_release_by_another_thread");
+   if (crossThreadFinalRelease) vf::Count("case_final_release_by_another_thread"); if (nonCountingPromoted) vf::Count("case_non_counting_reference_switched_to_counting");
    const bool nontrivial = (NT == 1) ? (obtained >= 2) : ((preempt >= 1)&&(crossThreadFinalRelease >= 1));
-   if (nontrivial) {uint64_t h = vf::HashStr(desc); for (size_t i=0; i<trace.size(); i++) h = vf::HashMix(h, trace[i]); for (int t=0; t<NT; t++) h = vf::Hash64(&scripts[t][0], scripts[t].size()*sizeof(Op), h); vf::NonTrivial(h); if (vf::WantSample()) {static const char * const N[] = {"copy", "reset", "obtain(pool)", "obtain(heap)", "swap", "publish", "take", "move-rotate", "const-cast", "temporaries", "clear-mailbox"}; std::string s = std::string(desc)+":"; for (int t=0; t<NT; t++) {s += " T"+std::to_string(t)+"["; for (size_t k=0; k<scripts[t].size(); k++) {s += N[scripts[t][k].op]; s += " ";} s += "]";} vf::Sample(s+" | "+std::to_string(switches)+" switches, "+std::to_string(preempt)+" preemptions");}}
+   if (nontrivial) {uint64_t h = vf::HashStr(desc); for (size_t i=0; i<trace.size(); i++) h = vf::HashMix(h, trace[i]); for (int t=0; t<NT; t++) h = vf::Hash64(&scripts[t][0], scripts[t].size()*sizeof(Op), h); vf::NonTrivial(h); if (vf::WantSample()) {static const char * const N[] = {"copy", "reset", "obtain(pool)", "obtain(heap)", "swap", "publish", "take", "move-rotate", "const-cast", "temporaries", "clear-mailbox", "non-counting-ref", "assign-counting-to-non-counting", "stop-counting", "start-counting"}; std::string s = std::string(desc)+":"; for (int t=0; t<NT; t++) {s += " T"+std::to_string(t)+"["; for (size_t k=0; k<scripts[t].size(); k++) {s += N[scripts[t][k].op]; s += " ";} s += "]";} vf::Sample(s+" | "+std::to_string(switches)+" switches, "+std::to_string(preempt)+" preemptions");}}
    return 0;
 }
